@@ -222,7 +222,7 @@ PROPS["C15"] = dict(
     not_decided=["losslessness / orientation / area / hole attribution are topological facts about the boundary walk as a whole (_scan; that _follow returns to its start enclosing exactly the region): bounded only",
                  "rasters outside the labelling contract's domain (non-finite values, values on which the isclose test is not equality): bounded only",
                  "more than 2**32 - 1 provisional region ids (RuntimeError by design)"],
-    assumptions=["_follow: the second pass retraces the first (buffer size), assumed at the loop head of pass 1",
+    assumptions=["_follow: the second pass retraces the first (buffer size): assumed at the loop head of pass 1 in the main contract, proved as an invariant by the second contract _follow@retrace (ghost trace of pass 0)",
                  "_is_close (numba generated_jit dispatcher) is trusted: its two lambdas are pinned on the AST; on the domain both mean equality",
                  "prophecy argument: the completeness postcondition holds for every region-id labelling dd under `dd == the flattened lookup`; "
                  "instantiating dd with the lookup the function computes discharges the premise (DESIGN section 4, C15)"],
